@@ -175,6 +175,7 @@ pub fn run_case(image: Vec<u8>, seed: u64, given: Option<Vec<String>>, max_ops: 
     let (tx, rx) = mpsc::channel();
     std::thread::spawn(move || {
         let mut rng = Rng::new(seed);
+        progress_image("open-damaged", &image);
         let shared = SharedFile::new(image);
         let opened = catch(|| CompoundFile::open(Backend::Mem(shared.clone())));
         let comp = match opened {
@@ -332,6 +333,7 @@ pub fn refusal_campaign(seed: u64, bases: &str, per_image: u64) {
     let mut seen = std::collections::HashSet::new();
     for f in files {
         let Ok(b) = std::fs::read(&f) else { continue };
+        progress(&format!("new open-base {}", f));
         let shared = SharedFile::new(b);
         let Ok(Ok(comp)) = catch(|| CompoundFile::open(Backend::Mem(shared.clone()))) else { continue };
         images += 1;
